@@ -84,7 +84,29 @@ def run(ctx):
                 if not isinstance(r, OperatedM) or r.oper is not s.oper or len(r.operands) != len(s.operands): ok = False; why.append('shape'); continue
                 for i, x in enumerate(r.operands):
                     if not (isinstance(x, SentV) and x.base == Spec('subst', s.operands[i], pn, po)): ok = False; why.append(f'operand {i}: {x!r}')
-            ctx.add(Obligation(f'C15.Operated.substitute.arity{ar}', z3.And(z3.BoolVal(ok), *smt), where=fi.where,
+                # derived attributes handed to the result's cache slots must be the ones a walk of the result gives
+                for attr, written in getattr(r, 'cache', {}).items():
+                    want = r.derived_spec(attr)
+                    if attr in r.DERIVED_SETS and isinstance(written, SetE):
+                        try: smt.append(z3.Implies(pr.pc, written.z3() == want.z3())); ih_needed = True
+                        except Outside as e: ok = False; why.append(f'cached {attr}: {e}')
+                    elif attr in r.DERIVED_SEQS and isinstance(written, (SeqE, tuple, list)):
+                        # lemma: operators / quantifiers of subst(s, ..) are those of s
+                        def nk(p_):
+                            if isinstance(p_, X.SegTok): p_ = p_.spec
+                            if isinstance(p_, Spec) and len(p_.args) == 1 and isinstance(p_.args[0], SentV) and isinstance(p_.args[0].base, Spec) and p_.args[0].base.fn == 'subst':
+                                return (p_.fn, ('S', p_.args[0].base.args[0].name))
+                            return p_.key() if isinstance(p_, Spec) else ('obj', id(p_))
+                        wp = written.parts if isinstance(written, SeqE) else list(written)
+                        if [nk(a_) for a_ in wp] != [nk(a_) for a_ in want.parts]: ok = False; why.append(f'cached {attr} differs from the walk of the result')
+                    else: ok = False; why.append(f'cached {attr}: {type(written).__name__}')
+            hyps = []
+            for pr, s, a in paths:
+                r = pr.value
+                if pr.kind == 'return' and isinstance(r, OperatedM) and getattr(r, 'cache', None):
+                    for i, x in enumerate(r.operands): hyps += subst_attr_lemma(s.operands[i], x, pn, po)
+                    break
+            ctx.add(Obligation(f'C15.Operated.substitute.arity{ar}', z3.And(z3.BoolVal(ok), *smt), hyps=hyps, where=fi.where,
                                meta=dict(clause='result = operator(subst(s_i, pnew, pold) ...); `return self` only when pnew == pold (lemma subst(s,p,p)=s)', why=why)))
         except Outside as e:
             ctx.add_result(Result(f'C15.Operated.substitute.arity{ar}', 'unknown', detail=f'outside subset: {e}'))
@@ -270,7 +292,47 @@ def derived(ctx):
     ok = p.operators == () and p.quantifiers == () and p.atomics == frozenset() and p.predicates == frozenset((p.predicate,))
     ctx.add(enum_ob('C15.Predicated.class-attributes', ok, clause='a predication has no operators/quantifiers/atomics and exactly its predicate', cex={}))
 
+def subst_attr_formulas(Cs, Vs, Cx, Vx, pn, po):
+    touched = z3.IsMember(po.key, z3.SetUnion(Cs, Vs))
+    return [Cx == z3.If(touched, z3.If(pn.is_const, z3.SetAdd(z3.SetDel(Cs, po.key), pn.key), z3.SetDel(Cs, po.key)), Cs),
+            Vx == z3.If(touched, z3.If(pn.is_const, z3.SetDel(Vs, po.key), z3.SetAdd(z3.SetDel(Vs, po.key), pn.key)), Vs)]
+
+def subst_attr_lemma(s_, x_, pn, po):
+    """lemma (structural induction; base and step cases are the obligations C15.lemma.subst-attrs.*): for x = subst(s, pnew, pold)
+    constants(x) / variables(x) are those of s with pold replaced by pnew when pold occurs, predicates and atomics are unchanged"""
+    sc = lambda a, t: X._set_const(Spec(a, t))
+    return subst_attr_formulas(sc('constants', s_), sc('variables', s_), sc('constants', x_), sc('variables', x_), pn, po) + \
+           [sc('predicates', x_) == sc('predicates', s_), sc('atomics', x_) == sc('atomics', s_)]
+
+def subst_attr_lemma_obligations(ctx):
+    E = X.ELEM
+    pn, po = ParamV('pnew'), ParamV('pold')
+    # a parameter's key determines whether it is a constant (C14): one predicate over keys
+    isc = z3.Function('key_is_const', z3.IntSort(), z3.BoolSort())
+    for k in (1, 2, 3):
+        ps = [ParamV(f'p{i}') for i in range(k)]
+        typed = [isc(p_.key) == p_.is_const for p_ in ps + [pn, po]]
+        def sets(params):
+            C = z3.EmptySet(E); V = z3.EmptySet(E)
+            for (key, c) in params:
+                C = z3.If(c, z3.SetAdd(C, key), C); V = z3.If(c, V, z3.SetAdd(V, key))
+            return C, V
+        before = [(p_.key, p_.is_const) for p_ in ps]
+        after = [(z3.If(p_.key == po.key, pn.key, p_.key), z3.If(p_.key == po.key, pn.is_const, p_.is_const)) for p_ in ps]
+        Cs, Vs = sets(before); Cx, Vx = sets(after)
+        ctx.add(Obligation(f'C15.lemma.subst-attrs.Predicated.arity{k}', z3.And(*subst_attr_formulas(Cs, Vs, Cx, Vx, pn, po)), hyps=typed + [pn.key != po.key],
+                           meta=dict(clause='base case: for a predication, constants/variables of the substitution instance (obligation C15.Predicated.substitute) are those of the sentence with pold replaced by pnew when pold occurs')))
+    S_ = z3.SetSort(E)
+    c0, v0, c1, v1, d0, w0, d1, w1 = [z3.Const(n, S_) for n in ('c0', 'v0', 'c1', 'v1', 'd0', 'w0', 'd1', 'w1')]
+    hyp = subst_attr_formulas(c0, v0, d0, w0, pn, po) + subst_attr_formulas(c1, v1, d1, w1, pn, po)
+    # typing of the sets: members of a constants set are constant keys, of a variables set variable keys (so pold is in at most one of them)
+    x = z3.Int('x')
+    typing = [z3.ForAll([x], z3.And(z3.Implies(z3.IsMember(x, cs_), isc(x)), z3.Implies(z3.IsMember(x, vs_), z3.Not(isc(x))))) for cs_, vs_ in ((c0, v0), (c1, v1))] + [isc(pn.key) == pn.is_const, isc(po.key) == po.is_const]
+    ctx.add(Obligation('C15.lemma.subst-attrs.step.Operated', z3.And(*subst_attr_formulas(z3.SetUnion(c0, c1), z3.SetUnion(v0, v1), z3.SetUnion(d0, d1), z3.SetUnion(w0, w1), pn, po)), hyps=hyp + typing,
+                       meta=dict(clause='step: if the lemma holds for s0 and s1 it holds for Oper(o, s0, s1), whose sets are the unions (C15.Operated.constants/variables, C15.Operated.substitute)')))
+
 def lemmas(ctx):
+    subst_attr_lemma_obligations(ctx)
     "subst(s, p, p) = s per constructor (spec-level induction steps; the Predicated base case is a z3 query)"
     p = ParamV('p')
     for k in (1, 2, 3):
@@ -391,6 +453,13 @@ def bounded_walk(ctx):
                 got = s.substitute(pnew, pold)
                 want = spec_subst_all(s, pold, pnew)
                 if got != want: fails.append(dict(sentence=str(s), new=str(pnew), old=str(pold), got=str(got), want=str(want)))
+                else:
+                    # two steps: the derived attributes of the substitution instance (and of its parts) are those a walk of it gives
+                    for sub in [got] + list(getattr(got, 'operands', ())) + ([got.sentence] if hasattr(got, 'sentence') else []):
+                        for what in ('constants', 'variables', 'predicates', 'atomics', 'operators', 'quantifiers'):
+                            g2 = getattr(sub, what); w2 = walk(sub, what)
+                            if (list(g2) != w2) if what in ('operators', 'quantifiers') else (set(g2) != w2):
+                                fails.append(dict(sentence=str(s), new=str(pnew), old=str(pold), part=str(sub), attr=what, got=sorted(map(str, g2)), want=sorted(map(str, w2)), note='derived attribute of a substitution instance')); break
             except Exception as e:
                 fails.append(dict(sentence=str(s), new=str(pnew), old=str(pold), exception=repr(e)))
     # the same with parameters that are EQUAL to the ones inside the sentence but other objects (the item cache is a bounded
@@ -432,7 +501,7 @@ def replay_search(r):
     for f in c2.bounded_failures:
         p = f['payload']
         if want and p.get('attr') not in want: continue
-        if ('substitute' in r.name or 'unquantify' in r.name or 'rshift' in r.name) and 'attr' in p: continue
+        if ('substitute' in r.name or 'unquantify' in r.name or 'rshift' in r.name) and 'attr' in p and 'new' not in p: continue
         return dict(reproduced=True, detail=f'real lex.py disagrees with the structural recursion: {p}')
     return dict(reproduced=False, detail='no sentence of the bounded vocabulary exhibits the difference')
 
